@@ -19,7 +19,10 @@ def parseResp (s : String) : Option Resp :=
 def parseOp : List String → Option Op
   | ["init", d, a, g] => do some (.init (← parseBool d) (← a.toInt?) (← g.toNat?))
   | ["enq", b] => do some (.enq (← hexDecode b))
-  | ["send", sc] => do some (.send (← (splitComma sc).mapM parseResp))
+  | ["send", sc] => do
+    let rs ← (splitComma sc).mapM parseResp
+    -- a scripted timeout is only ever the first answer of a call (harness restriction)
+    if (rs.drop 1).any (fun r => r.kind == 2) then none else some (.send rs)
   | ["age"] => some .age
   | ["purge"] => some .purge
   | ["dump"] => some .dump
